@@ -82,6 +82,8 @@ def check_lib(ctx, gen_or_libs, target, drv):
                 raise HarnessError("model driver rejected the description: %s" % json.dumps(ans)[:300])
             if ans["text"] != text:
                 raise HarnessError("the two renderers of the description disagree")
+            if ans.get("err") == "fuel":
+                ctx.disagreement("model-out-of-fuel", rep, "fuel", None)
             models[st] = norm(ans, "C08")
         obs = a05.py_flatten(text, target)
         obss[st] = obs
@@ -154,6 +156,12 @@ def run(ctx):
         nt = competing(libs["S"], target)
         ctx.case({"lib": libs["S"], "target": target}, nontrivial=nt)
         ctx.count("competing" if nt else "single-level")
+        orc = a05.Oracle(libs["S"])
+        orc.flat(target)
+        ctx.count("max-competing-modifications-%d" % min(orc.max_candidates, 5))
+        kinds = set((k[:4], 0 if w is None else len(p) - 1 - len(w)) for (p, a, w, e, n, k) in orc.bindings)
+        for kd, up in kinds:
+            ctx.count("winner-%s-%d-levels-up" % (kd, min(up, 3)))
         check_lib(ctx, libs, target, drv)
     ctx.extra["libraries"] = done
 
@@ -170,11 +178,13 @@ def search(ctx):
 
 
 def replay(ctx, payload):
-    c = payload["case"]
-    libs = {"S": c["lib"]}
-    if "twin" in c:
-        libs[c["twin"]["spelling"] + "-twin"] = c["twin"]["lib"]
-    check_lib(ctx, libs, c["target"], ctx.driver("drv_c08"))
+    cases = [payload["case"]] if "case" in payload else [d["case"] for d in payload.get("details", []) if "case" in d]
+    for c in cases:
+        libs = {"S": c["lib"]}
+        if "twin" in c:
+            libs[c["twin"]["spelling"] + "-twin"] = c["twin"]["lib"]
+        ctx.case({"lib": c["lib"], "target": c["target"]}, nontrivial=True)
+        check_lib(ctx, libs, c["target"], ctx.driver("drv_c08"))
 
 
 MANIFEST = dict(
@@ -190,4 +200,4 @@ MANIFEST = dict(
     technique="Lean 4 proof (induction over the instance tree, structural induction over spelled modifications) + "
               "reference/implementation correspondence + metamorphic oracle",
 )
-READY = False
+READY = True
